@@ -140,6 +140,7 @@ fn full_event(t: &Tables, sc: &Scenario, full: &RunOut, kmax: u64, d: i64, tag: 
     let sends: Vec<Value> = full.sends.iter().filter(|i| i["q"].as_u64().unwrap_or(0) <= kmax).cloned().collect();
     json!({"ev": "sfull", "tag": tag, "cmd": sc.cmd, "root": t.state(&sc.board), "rep0": table_json(&table_entries(&sc.table)),
            "K": kmax, "D": d, "infos": infos, "sends": sends, "panic": full.panic,
+           "last_depth": full.infos.iter().filter_map(|i| i["depth"].as_i64()).max().unwrap_or(0),
            "root_rep": root_rep_counts(t, sc), "root_order": root_order(t, sc)})
 }
 
@@ -206,7 +207,17 @@ pub fn expiry_enumeration(t: &Tables, cmds: &[String], dir: &str, nshards: usize
             d -= 1;
         }
         // nothing completed (tiny budget): still enumerate a few expiry points
-        let kmax = kmax.unwrap_or(full.queries.min(50));
+        let mut kmax = kmax.unwrap_or(full.queries.min(50));
+        // "deep" scenarios: when the search ran to its last iteration (or died) inside the budget, the expiry points
+        // are spread over the WHOLE search
+        // (candidates whose search neither got near the last iteration nor died are dropped: they say nothing about it)
+        if tag == "deep" && !full.panic && full.infos.iter().filter_map(|i| i["depth"].as_i64()).max().unwrap_or(0) < 90 {
+            return None;
+        }
+        if tag == "deep" && full.queries < budget {
+            kmax = full.queries;
+            d = full.infos.iter().filter_map(|i| i["depth"].as_i64()).max().unwrap_or(d);
+        }
         let ks: Vec<u64> = if kmax <= cap {
             (0..=kmax).collect()
         } else {
@@ -494,11 +505,42 @@ fn repetition_cycle(t: &Tables, b0: &BoardState, rng: &mut StdRng) -> Option<Vec
     None
 }
 
-pub fn scenarios(t: &Tables, seeds: &[String], seed: u64, n_small: usize, n_mate: usize, n_rep: usize, n_game: usize, n_term: usize, n_fam: usize) -> Value {
+pub fn scenarios(t: &Tables, seeds: &[String], seed: u64, n_small: usize, n_mate: usize, n_rep: usize, n_game: usize, n_term: usize, n_fam: usize, n_deep: usize) -> Value {
     let mut rng = StdRng::seed_from_u64(seed);
     let mut out: Vec<Value> = Vec::new();
     let kits: [(&[u32], &[u32]); 8] = [(&[6, 5], &[6]), (&[6, 4], &[6]), (&[6, 4, 4], &[6]), (&[6, 5], &[6, 4]), (&[6, 4, 1], &[6, 1]),
                                         (&[6, 3, 2], &[6, 1]), (&[6, 1, 1], &[6, 2]), (&[6, 5, 1], &[6, 3, 1])];
+    // "deep": king + queen / rook against the bare king, the bare king to move after a history in which it can step into a
+    // position seen twice: the draw is found at once and every alternative is refuted at once, so iterative deepening
+    // runs to its last iteration (99) within a few hundred thousand nodes - with lines that go past ply 99
+    {
+        let mut tries = 0;
+        let mut count = 0;
+        while count < n_deep && tries < 100000 {
+            tries += 1;
+            let (s, w) = kits[rng.gen_range(0..2)];
+            if let Some(b0) = random_endgame(t, &mut rng, s, w) {
+                // the strong side moves first in b0, so that the bare king is the one who can repeat after 7 plies
+                let mut strong = 0;
+                for row in BOARD_START..BOARD_END {
+                    for col in BOARD_START..BOARD_END {
+                        if let Square::Full(p) = b0.board[row][col] {
+                            if p.color == b0.to_move {
+                                strong += 1;
+                            }
+                        }
+                    }
+                }
+                if strong < 2 || is_check(&b0, b0.to_move) {
+                    continue;
+                }
+                if let Some(cyc) = repetition_cycle(t, &b0, &mut rng) {
+                    out.push(json!({"tag": "deep", "cmd": format!("position fen {} moves {}", to_fen(&b0, 0, 1), cyc[..7].join(" "))}));
+                    count += 1;
+                }
+            }
+        }
+    }
     // small positions without history
     let mut tries = 0;
     let mut count = 0;
